@@ -266,10 +266,25 @@ def _worker(arg):
         nest = path + ".nested.cool"
         cooler.create_cooler(nest + "::/other", make_bins(max(n, 2)), pd.DataFrame({"bin1_id": [0], "bin2_id": [max(n, 2) - 1], "count": [7]}))
         cooler.create_cooler(nest + "::/a/b", make_bins(n), df, symmetric_upper=case["symm"], mode="a", **kw)
+        # the sibling collection is queried first and again in between: two collections of one file must not see each other
+        m2 = max(n, 2)
+        Fo = np.zeros((m2, m2), dtype=np.int64); Fo[0, m2 - 1] = 7; Fo[m2 - 1, 0] = 7
+        co = cooler.Cooler(nest + "::/other")
+        if not (np.asarray(co.matrix(balance=False)[:, :]) == Fo).all():
+            res["fails"].append({"window": "[:, :] of file::/other (sibling group)", "expected_dense": Fo.tolist()})
         cn = cooler.Cooler(nest + "::a/b")
         fulln = np.round(np.asarray(cn.matrix(balance=False, chunksize=2, **fkw)[:, :]) * scale).astype(np.int64)
         if not (fulln.astype(object) == F).all() or cn.pixels()[:].shape[0] != len(b1):
             res["fails"].append({"window": "[:, :] of file::a/b (nested group)", "got_dense": fulln.tolist(), "expected_dense": F.tolist()})
+        seln, selo = cn.matrix(balance=False, chunksize=3, **fkw), co.matrix(balance=False, sparse=True)
+        for kx, (i0, i1, j0, j1) in enumerate(wins[:: max(1, len(wins) // 15)]):
+            gw = np.round(np.asarray(seln[i0:i1, j0:j1]) * scale).astype(np.int64)
+            res["nq"] += 1
+            if not (gw.astype(object) == F[i0:i1, j0:j1]).all() and len(res["fails"]) < 5:
+                res["fails"].append({"window": [i0, i1, j0, j1], "chunk": "3", "store": "file::a/b queried after its sibling file::/other",
+                                     "got_dense": gw.tolist(), "expected_dense": F[i0:i1, j0:j1].tolist()})
+            if kx % 4 == 0 and not (selo[0:m2, 0:m2].toarray() == Fo).all() and len(res["fails"]) < 5:
+                res["fails"].append({"window": "[:, :] of file::/other (sibling group), interleaved", "expected_dense": Fo.tolist()})
         os.unlink(nest)
     except Exception as e:
         res["fails"].append({"window": "[:, :] of file::a/b (nested group)", "error": repr(e)})
@@ -305,7 +320,7 @@ def run_spellings(ctx):
     mix = _IndexingMixin()
     exprs, impl, cases = [], [], []
     for n in range(1, 6):
-        vals = [None] + list(range(-n, n + 1))
+        vals = [None] + list(range(-n - 3, n + 1)) + [-10 ** 6]      # every bound up to n, also below -n (clamped like an array: D33)
         for a in vals:
             for b_ in vals:
                 cases.append({"fn": "_process_slice", "n": n, "start": a, "stop": b_})
@@ -329,7 +344,7 @@ def run_spellings(ctx):
         if case["fn"] == "_process_slice":
             ctx.compare("_process_slice", case, im, list(mo))
             a, b_, n = case["start"], case["stop"], case["n"]
-            lo, hi, _ = slice(a, b_).indices(n)       # python's own resolution (independent oracle); bounds are within [-n, n]
+            lo, hi, _ = slice(a, b_).indices(n)       # python's own resolution (independent oracle); bounds are <= n, arbitrarily negative
             if (im[0], max(im[0], im[1])) != (lo, max(lo, hi)):
                 ctx.fail(case, {"got": im, "python_slice_indices": [lo, hi]}, None)
         else:
@@ -340,7 +355,7 @@ def run_spellings(ctx):
             if -n <= s < n:
                 if im is None or tuple(im[1]) != (s % n, s % n + 1):
                     ctx.fail(case, {"got": im}, None)
-            elif s >= n and im is not None:
+            elif im is not None:       # beyond either end
                 ctx.fail(case, {"got": im, "expected": "IndexError"}, None)
     # end-to-end spellings on one symmetric matrix per n
     for n in range(1, 5):
@@ -354,7 +369,7 @@ def run_spellings(ctx):
             F[j, i] = v
         clr = cooler.Cooler(path)
         sel = clr.matrix(balance=False, chunksize=2)
-        vals = [None] + list(range(-n, n + 1))
+        vals = [None] + list(range(-n - 2, n + 1)) + [-10 ** 6]
         for a, b_, c_, d_ in itertools.product(vals, repeat=4):
             if ctx.tier != "thorough" and n >= 3 and ctx.rng.random() > 0.15:
                 continue
@@ -372,6 +387,16 @@ def run_spellings(ctx):
                 continue
             if got.shape != exp.shape or not (got == exp).all():
                 ctx.fail(case, {"got": got.tolist(), "expected": exp.tolist()}, None)
+        for s in (-n - 1, -n - 5, n, n + 3):       # a scalar beyond either end is an IndexError, never a wrapped-around row
+            case = {"fn": "matrix[s]", "n": n, "s": s}
+            ctx.case(case, kind="spelling")
+            try:
+                got = sel[s]
+                ctx.fail(case, {"got": np.asarray(got).tolist(), "expected": "IndexError"}, None)
+            except IndexError:
+                pass
+            except Exception as e:
+                ctx.fail(case, {"error": repr(e), "expected": "IndexError"}, None)
         for s in range(-n, n):
             for form, getter, exp in (("[s]", lambda: sel[s], F[s:s + 1 if s != -1 else None, :]),
                                       ("[s, :]", lambda: sel[s, :], F[s:s + 1 if s != -1 else None, :]),
